@@ -43,7 +43,7 @@ CLAIMED["C08"] = ("model_checking",
   "Trusted: TLC, harness/project.go. Files are produced by the library's writer and re-validated by the TLA+ container parser before use.",
   "DESIGN.md section 6 C08")
 CLAIMED["C09"] = ("model_checking",
-  "TLA+ AvroSystem writer invariants (gap-free, threshold, after-flush) model-checked by TLC; Encoder/FileWriter call histories trace-validated by the Trace_Encoder state machine (pend/sync/acc) after every call",
+  "TLA+ AvroSystem writer invariants (gap-free, threshold, after-flush) and MirrorWriter (one FileWriter, several destinations: every destination a valid container; the marker-per-header defect cfg must violate it) model-checked by TLC; Encoder/FileWriter call histories trace-validated by the Trace_Encoder state machine (pend/sync/acc) after every call",
   "TLC checks the encoder design exhaustively (histories <= 3/4 ops, block sizes {0..5}, record sizes {0..3}, with faults and crashes: 258k / 1.4M states). Every history over {encode(size), flush} up to length 3 (5 thorough) x block sizes {0,1,2,3,5} x 3 codecs plus random histories up to 40 calls, a record type whose encoding is empty, and FileWriter used directly, is run against the real Encoder with a recording writer; after each call TLC demands exactly one block (exact count, payload = concatenation of the pending encodings via the decompression oracle, header's sync) when the buffered bytes reach the block size or flush has records pending, and no bytes otherwise.",
   "Trusted: TLC, flate/snappy/crc32 as decompression oracle.",
   "DESIGN.md section 6 C09")
